@@ -260,6 +260,8 @@ class Interp:
                 return True
             if ("notin", atom[1], atom[2]) in st.facts:
                 return False
+            if ("falsy", atom[2]) in st.facts:
+                return False  # nothing is a member of an empty container
             return None
         if op == "isnone":
             k = atom[1]
@@ -1041,6 +1043,14 @@ class Interp:
                     known = False
             if isinstance(b, DictV) and b.closed and isinstance(a, Const):
                 known = a.value in b.entries
+            if ("in", a.key(), b.key()) in st.facts:
+                known = True
+            elif getattr(a, "gt_all_keys_of", None) is not None and a.gt_all_keys_of == b.key():
+                known = False  # arithmetic: a value above the maximum key is not a key (until it is inserted)
+                st.add_fact(("notin", a.key(), b.key()))
+            elif known is None and ("falsy", b.key()) in st.facts:
+                known = False
+                st.add_fact(("notin", a.key(), b.key()))
             if known is not None:
                 return Const(known != neg)
             atom = ("in", a.key(), b.key())
